@@ -27,15 +27,16 @@ Fixpoint list_close {A B} (f : A -> B -> bool) (a : list A) (b : list B) : bool 
   | _, _ => false
   end.
 
-Definition ipanel := list (list (list nat)).
+(* table indices are binary integers (Z): unary nat literals would dominate the cost of the cases files *)
+Definition ipanel := list (list (list Z)).
 Definition run := (list nat * option ipanel)%type.
 
 Section Table.
   Variable tbl : list Q.
-  Definition val (i : nat) : Q := nth i tbl 0.
-  Definition iclose (a b : nat) : bool := (a =? b)%nat || qclose (val a) (val b).
+  Definition val (i : Z) : Q := nth (Z.to_nat i) tbl 0.
+  Definition iclose (a b : Z) : bool := (a =? b)%Z || qclose (val a) (val b).
   Definition ipanel_close : ipanel -> ipanel -> bool := list_close (list_close (list_close iclose)).
-  Definition mclose (q : Q) (i : nat) : bool := qclose q (val i).
+  Definition mclose (q : Q) (i : Z) : bool := qclose q (val i).
   Definition model_close : panel -> ipanel -> bool := list_close (list_close (list_close mclose)).
 
   Definition agree (m : res panel) (o : option ipanel) : bool :=
